@@ -1157,13 +1157,33 @@ func eq(lhs, rhs reflect.Value) bool {
 		return ok && v1 == v2
 	}
 
-	// Arrays and maps are compared with a deep equal
+	// Arrays and maps are compared member by member (their Go
+	// types may differ: $count returns an int, $split a []string).
 	if jtypes.IsArray(lhs) && jtypes.IsArray(rhs) {
-		return reflect.DeepEqual(lhs.Interface(), rhs.Interface())
+		a, b := jtypes.Resolve(lhs), jtypes.Resolve(rhs)
+		if a.Len() != b.Len() {
+			return false
+		}
+		for i, N := 0, a.Len(); i < N; i++ {
+			if !eqMember(a.Index(i), b.Index(i)) {
+				return false
+			}
+		}
+		return true
 	}
 
 	if jtypes.IsMap(lhs) && jtypes.IsMap(rhs) {
-		return reflect.DeepEqual(lhs.Interface(), rhs.Interface())
+		a, b := jtypes.Resolve(lhs), jtypes.Resolve(rhs)
+		if a.Len() != b.Len() || a.Type().Key() != b.Type().Key() {
+			return false
+		}
+		for _, k := range a.MapKeys() {
+			v := b.MapIndex(k)
+			if !v.IsValid() || !eqMember(a.MapIndex(k), v) {
+				return false
+			}
+		}
+		return true
 	}
 
 	// JSON null equals itself, whether it is the null literal or
@@ -1178,6 +1198,19 @@ func eq(lhs, rhs reflect.Value) bool {
 	// physical object in memory.
 
 	return lhs == rhs
+}
+
+// eqMember compares two members of arrays or objects. A member
+// that holds JSON null is either a nil interface (decoded data)
+// or the null literal.
+func eqMember(v1, v2 reflect.Value) bool {
+	v1, v2 = jtypes.Resolve(v1), jtypes.Resolve(v2)
+	null1 := !v1.IsValid() || isNull(v1) || (v1.Kind() == reflect.Interface && v1.IsNil())
+	null2 := !v2.IsValid() || isNull(v2) || (v2.Kind() == reflect.Interface && v2.IsNil())
+	if null1 || null2 {
+		return null1 && null2
+	}
+	return eq(v1, v2)
 }
 
 func isNull(v reflect.Value) bool {
